@@ -60,6 +60,11 @@ def _install_key_stub():
         def __eq__(self, other):
             return isinstance(other, KeyContainer) and api.deep_eq(self._params, other._params)
 
+        @property
+        def der(self):     # a deterministic encoding of the parameters (stands in for the DER of the real key)
+            import attr as _attr  # pylint: disable=import-outside-toplevel
+            return repr(_attr.astuple(self._params, recurse=False)).encode('ascii', 'replace')
+
         def _asdict(self):      # host_key_asdict() merges the key's own dictionary: nothing to add for the container
             return {}
 
